@@ -58,6 +58,9 @@ Proofs/Closures.vos Proofs/Closures.vok Proofs/Closures.required_vos: Proofs/Clo
 Proofs/Capture.vo Proofs/Capture.glob Proofs/Capture.v.beautified Proofs/Capture.required_vo: Proofs/Capture.v Base/Base.vo Model/Reader.vo Model/Printer.vo Model/Store.vo Model/Eval.vo Proofs/Closures.vo
 Proofs/Capture.vio: Proofs/Capture.v Base/Base.vio Model/Reader.vio Model/Printer.vio Model/Store.vio Model/Eval.vio Proofs/Closures.vio
 Proofs/Capture.vos Proofs/Capture.vok Proofs/Capture.required_vos: Proofs/Capture.v Base/Base.vos Model/Reader.vos Model/Printer.vos Model/Store.vos Model/Eval.vos Proofs/Closures.vos
+Proofs/CaptureGen.vo Proofs/CaptureGen.glob Proofs/CaptureGen.v.beautified Proofs/CaptureGen.required_vo: Proofs/CaptureGen.v Base/Base.vo Model/Reader.vo Model/Printer.vo Model/Store.vo Model/Eval.vo Proofs/Closures.vo Proofs/Capture.vo
+Proofs/CaptureGen.vio: Proofs/CaptureGen.v Base/Base.vio Model/Reader.vio Model/Printer.vio Model/Store.vio Model/Eval.vio Proofs/Closures.vio Proofs/Capture.vio
+Proofs/CaptureGen.vos Proofs/CaptureGen.vok Proofs/CaptureGen.required_vos: Proofs/CaptureGen.v Base/Base.vos Model/Reader.vos Model/Printer.vos Model/Store.vos Model/Eval.vos Proofs/Closures.vos Proofs/Capture.vos
 Proofs/Macros.vo Proofs/Macros.glob Proofs/Macros.v.beautified Proofs/Macros.required_vo: Proofs/Macros.v Base/Base.vo Model/Reader.vo Model/Printer.vo Model/Store.vo Model/Eval.vo Proofs/Lists.vo
 Proofs/Macros.vio: Proofs/Macros.v Base/Base.vio Model/Reader.vio Model/Printer.vio Model/Store.vio Model/Eval.vio Proofs/Lists.vio
 Proofs/Macros.vos Proofs/Macros.vok Proofs/Macros.required_vos: Proofs/Macros.v Base/Base.vos Model/Reader.vos Model/Printer.vos Model/Store.vos Model/Eval.vos Proofs/Lists.vos
@@ -115,9 +118,9 @@ Props/C03.vos Props/C03.vok Props/C03.required_vos: Props/C03.v Base/Base.vos Mo
 Props/C04.vo Props/C04.glob Props/C04.v.beautified Props/C04.required_vo: Props/C04.v Base/Base.vo Model/Reader.vo Model/Printer.vo Model/Store.vo Model/Eval.vo Model/Init.vo Proofs/EvalRel.vo Proofs/TailCalls.vo Proofs/Calls.vo Proofs/Hidden.vo Proofs/Tramp.vo
 Props/C04.vio: Props/C04.v Base/Base.vio Model/Reader.vio Model/Printer.vio Model/Store.vio Model/Eval.vio Model/Init.vio Proofs/EvalRel.vio Proofs/TailCalls.vio Proofs/Calls.vio Proofs/Hidden.vio Proofs/Tramp.vio
 Props/C04.vos Props/C04.vok Props/C04.required_vos: Props/C04.v Base/Base.vos Model/Reader.vos Model/Printer.vos Model/Store.vos Model/Eval.vos Model/Init.vos Proofs/EvalRel.vos Proofs/TailCalls.vos Proofs/Calls.vos Proofs/Hidden.vos Proofs/Tramp.vos
-Props/C05.vo Props/C05.glob Props/C05.v.beautified Props/C05.required_vo: Props/C05.v Base/Base.vo Model/Reader.vo Model/Printer.vo Model/Store.vo Model/Eval.vo Model/Init.vo Proofs/Closures.vo Proofs/Capture.vo Proofs/EvalRel.vo
-Props/C05.vio: Props/C05.v Base/Base.vio Model/Reader.vio Model/Printer.vio Model/Store.vio Model/Eval.vio Model/Init.vio Proofs/Closures.vio Proofs/Capture.vio Proofs/EvalRel.vio
-Props/C05.vos Props/C05.vok Props/C05.required_vos: Props/C05.v Base/Base.vos Model/Reader.vos Model/Printer.vos Model/Store.vos Model/Eval.vos Model/Init.vos Proofs/Closures.vos Proofs/Capture.vos Proofs/EvalRel.vos
+Props/C05.vo Props/C05.glob Props/C05.v.beautified Props/C05.required_vo: Props/C05.v Base/Base.vo Model/Reader.vo Model/Printer.vo Model/Store.vo Model/Eval.vo Model/Init.vo Proofs/Closures.vo Proofs/Capture.vo Proofs/CaptureGen.vo Proofs/EvalRel.vo
+Props/C05.vio: Props/C05.v Base/Base.vio Model/Reader.vio Model/Printer.vio Model/Store.vio Model/Eval.vio Model/Init.vio Proofs/Closures.vio Proofs/Capture.vio Proofs/CaptureGen.vio Proofs/EvalRel.vio
+Props/C05.vos Props/C05.vok Props/C05.required_vos: Props/C05.v Base/Base.vos Model/Reader.vos Model/Printer.vos Model/Store.vos Model/Eval.vos Model/Init.vos Proofs/Closures.vos Proofs/Capture.vos Proofs/CaptureGen.vos Proofs/EvalRel.vos
 Props/C06.vo Props/C06.glob Props/C06.v.beautified Props/C06.required_vo: Props/C06.v Base/Base.vo Model/Reader.vo Model/Printer.vo Model/Store.vo Model/Eval.vo Model/Init.vo Proofs/Macros.vo
 Props/C06.vio: Props/C06.v Base/Base.vio Model/Reader.vio Model/Printer.vio Model/Store.vio Model/Eval.vio Model/Init.vio Proofs/Macros.vio
 Props/C06.vos Props/C06.vok Props/C06.required_vos: Props/C06.v Base/Base.vos Model/Reader.vos Model/Printer.vos Model/Store.vos Model/Eval.vos Model/Init.vos Proofs/Macros.vos
